@@ -161,7 +161,7 @@ func StartModels(ctx *core.Ctx, which string) *Models {
 		which = ""
 	}
 	m.which = which
-	if strings.Contains(which, "lexer") {
+	if strings.Contains(which, "paths") {
 		// the path enumeration first: the input family (a) waits for it
 		m.job("SoyLexer/paths", "SoyLexer", lexerCfg("", true, false, lexPaths), "", 1, func(res *core.TLCResult, run *ModelRun) {
 			for _, p := range res.Printed {
@@ -179,6 +179,7 @@ func StartModels(ctx *core.Ctx, which string) *Models {
 	} else {
 		close(m.pathC)
 	}
+	m.startDevs()
 	return m
 }
 
@@ -201,6 +202,37 @@ func (m *Models) StartRest() {
 			}
 			m.mu.Unlock()
 		})
+	}
+	depth := ctx.Pick(3, 4)
+	if has("parse-") {
+		m.job("SoyLexParse/reference-safety", "SoyLexParse", parseCfg("", depth, 2, false, parseSafety), "", 6, nil)
+		m.job("SoyLexParse/reference-liveness", "SoyLexParse", parseCfg("", 3, 1, false, parseLive), "", 4, nil)
+	}
+	if has("lexer") {
+		for i, d := range LexerDevs {
+			if d.Breaks == "NoSpin" && (thorough || i == 0) {
+				m.job("SoyLexer/dev-liveness/"+d.Name, "SoyLexer", lexerCfg(d.Name, false, false, lexDevLive), "temporal", 3, nil)
+			}
+		}
+	}
+	liveFor := map[string][]string{"parse-c05": {"switch_ignores_unknown"}, "parse-c18": {"expr_no_drain"}}
+	for part, names := range liveFor {
+		if !has(part) {
+			continue
+		}
+		for _, n := range names {
+			m.job("SoyLexParse/dev-liveness/"+n, "SoyLexParse", parseCfg(n, 3, 1, false, parseLive), "temporal", 3, nil)
+		}
+	}
+}
+
+// startDevs launches the cheap safety runs of the deviations (their
+// counterexamples become replay inputs).
+func (m *Models) startDevs() {
+	ctx, which := m.ctx, m.which
+	has := func(s string) bool { return strings.Contains(which, s) }
+	thorough := ctx.Thorough()
+	if has("lexer") {
 		for i, d := range LexerDevs {
 			if !thorough && i >= 3 {
 				break
@@ -211,22 +243,13 @@ func (m *Models) StartRest() {
 			default:
 				m.job("SoyLexer/dev/"+d.Name, "SoyLexer", lexerCfg(d.Name, true, false, lexDevHist), d.Breaks, 1, nil)
 			}
-			if d.Breaks == "NoSpin" && (thorough || i == 0) {
-				m.job("SoyLexer/dev-liveness/"+d.Name, "SoyLexer", lexerCfg(d.Name, false, false, lexDevLive), "temporal", 4, nil)
-			}
 		}
-	}
-	depth := ctx.Pick(3, 4)
-	if has("parse-") {
-		m.job("SoyLexParse/reference-safety", "SoyLexParse", parseCfg("", depth, 2, false, parseSafety), "", 6, nil)
-		m.job("SoyLexParse/reference-liveness", "SoyLexParse", parseCfg("", 3, 1, false, parseLive), "", 4, nil)
 	}
 	devsFor := map[string][]string{
 		"parse-c05": {"switch_ignores_unknown", "emit_after_close", "runtime_panic_in_frame"},
 		"parse-c18": {"expr_no_drain", "quoted_no_drain", "recover_no_drain", "runtime_panic_in_frame"},
 		"parse-c19": {"error_uses_zero_item", "quoted_pos_relative"},
 	}
-	liveFor := map[string][]string{"parse-c05": {"switch_ignores_unknown"}, "parse-c18": {"expr_no_drain"}}
 	for part, names := range devsFor {
 		if !has(part) {
 			continue
@@ -239,9 +262,6 @@ func (m *Models) StartRest() {
 				}
 			}
 			m.job("SoyLexParse/dev/"+n, "SoyLexParse", parseCfg(n, 3, 2, true, parseHist), exp, 2, nil)
-		}
-		for _, n := range liveFor[part] {
-			m.job("SoyLexParse/dev-liveness/"+n, "SoyLexParse", parseCfg(n, 3, 1, false, parseLive), "temporal", 4, nil)
 		}
 	}
 }
@@ -273,7 +293,7 @@ func (m *Models) Finish() []*ModelRun {
 		case r.Expect != "":
 			ok := false
 			for _, e := range strings.Split(r.Expect, "|") {
-				if r.Violated == e {
+				if r.Violated == e || (e == "temporal" && strings.HasPrefix(r.Violated, "temporal")) {
 					ok = true
 				}
 			}
